@@ -205,8 +205,8 @@ Definition ranges_disjoint (rs : list range) : bool := no_overlap_sorted (sort_r
 
 Definition SUPPLEMENTARY_PLANE_START : N := 65536.
 Definition range_is_astral (r : range) : bool :=
-  (SUPPLEMENTARY_PLANE_START <? rg_lo r)
-  || match rg_end r with Some e => SUPPLEMENTARY_PLANE_START <? ch_code e | None => false end.
+  (SUPPLEMENTARY_PLANE_START <=? rg_lo r)
+  || match rg_end r with Some e => SUPPLEMENTARY_PLANE_START <=? ch_code e | None => false end.
 
 Section WithTables.
   Variable T : tables.
